@@ -129,6 +129,10 @@ TraceData ==
          [] OTHER ->
               Why(E.got.nil /\ E.err = lastd'.err, <<"Data: expected error", lastd'.err, "got", E.got, E.err>>)
     /\ ChgOK /\ ObsLight(E.obs) /\ Mark
+    \* (observation, not judged) a hit whose answer is not what the databases say about the asked address itself:
+    \* the documented granularity of the cache key (/24, /56)
+    /\ IF lastd'.kind = "hit" /\ Lookup(dbA, dbC, Unmap(E.ip), E.ha, E.hc).loc # heap'[lastd'.p].orig
+       THEN PrintT(<<"SHARED", l, heap'[lastd'.p].a>>) ELSE TRUE
 
 SubnetReasons(e) ==
     LET ll == IF e.lp > 0 /\ e.lp <= Len(heap) THEN heap[e.lp].cur ELSE LocOf(e.l)
